@@ -1071,10 +1071,9 @@ class Canon(object):
     def method_aliases(self, fn):
         """N43  m = obj.attr.method  (bound once, not a parameter, every read of m is the function position of a call)   ->   the calls are
         written obj.attr.method(...).  A helper that is handed the bound method to call reads like this after inlining."""
-        if any(isinstance(n, (ast.Lambda, ast.ClassDef, ast.Global, ast.Nonlocal)) for n in ast.walk(fn)):
+        if any(isinstance(n, (ast.ClassDef, ast.Global, ast.Nonlocal)) for n in ast.walk(fn)):
             return
-        if any(isinstance(n, (ast.FunctionDef, ast.AsyncFunctionDef)) for n in ast.walk(fn) if n is not fn):
-            return
+        inner = set(id(x) for d_ in ast.walk(fn) if d_ is not fn and isinstance(d_, (ast.FunctionDef, ast.AsyncFunctionDef, ast.Lambda)) for x in ast.walk(d_))
         params = set(a.arg for a in fn.args.args + fn.args.kwonlyargs + fn.args.posonlyargs)
         stores, defs = {}, {}
         for n in ast.walk(fn):
@@ -1084,16 +1083,22 @@ class Canon(object):
                 stores[n.name] = stores.get(n.name, 0) + 2
         for n in ast.walk(fn):
             if isinstance(n, ast.Assign) and len(n.targets) == 1 and isinstance(n.targets[0], ast.Name) and stores.get(n.targets[0].id) == 1 \
-                    and n.targets[0].id not in params and _chain(n.value) and not any(isinstance(p_, (ast.For, ast.While, ast.AsyncFor)) for p_ in _parents(fn, n)):
+                    and n.targets[0].id not in params and (_chain(n.value) or _super_attr(n.value)) \
+                    and not any(isinstance(p_, (ast.For, ast.While, ast.AsyncFor)) for p_ in _parents(fn, n)):
                 defs[n.targets[0].id] = n
         if not defs:
             return
         callpos = set(id(n.func) for n in ast.walk(fn) if isinstance(n, ast.Call))
         for x, d in list(defs.items()):
             loads = [n for n in ast.walk(fn) if isinstance(n, ast.Name) and n.id == x and isinstance(n.ctx, ast.Load)]
+            if any(id(n) in inner for n in loads) or id(d) in inner:
+                del defs[x]          # read from inside a closure: evaluated at another time
+                continue
             root = d.value
             while isinstance(root, ast.Attribute):
                 root = root.value
+            if isinstance(root, ast.Call):
+                root = ast.Name(id='self', ctx=ast.Load())          # super(C, self).method
             if not loads or not all(id(n) in callpos for n in loads) or stores.get(root.id, 0) > (0 if root.id in params or root.id == 'self' else 1):
                 del defs[x]
         if not defs:
@@ -1706,6 +1711,12 @@ class Canon(object):
             s = body[0]
             self.hit('N3')
         return [s] + rest
+
+
+def _super_attr(e):
+    """super(C, self).name / super().name"""
+    return isinstance(e, ast.Attribute) and isinstance(e.value, ast.Call) and isinstance(e.value.func, ast.Name) and e.value.func.id == 'super' \
+        and all(isinstance(a, ast.Name) for a in e.value.args) and not e.value.keywords
 
 
 def _chain(e):
